@@ -8,10 +8,13 @@ import (
 	"encoding/json"
 	"fmt"
 	"go/ast"
+	"go/parser"
 	"go/token"
 	"go/types"
 	"os"
+	"regexp"
 	"sort"
+	"strconv"
 	"strings"
 
 	"golang.org/x/tools/go/packages"
@@ -182,6 +185,9 @@ func (t *tr) render(p *packages.Package, e ast.Expr, depth int) string {
 	return types.ExprString(e)
 }
 
+var reMultisig = regexp.MustCompile(`^contract\.CreateMultisigAccount\((.+),neo\.GetCommittee\(\)\)$`)
+var siteThresholds = map[string]bool{}
+
 // canonical names of the recurring witness subjects
 func canon(s string) string {
 	s = strings.ReplaceAll(s, " ", "")
@@ -189,8 +195,6 @@ func canon(s string) string {
 	case "common.AlphabetAddress()", "common.Multiaddress(neo.GetCommittee(),false)", "common.Multiaddress(common.AlphabetNodes(),false)":
 		return "alphabet"
 	case "common.CommitteeAddress()", "common.Multiaddress(neo.GetCommittee(),true)", "common.Multiaddress(common.AlphabetNodes(),true)":
-		return "committee"
-	case "contract.CreateMultisigAccount(len(neo.GetCommittee())-(len(neo.GetCommittee())-1)/2,neo.GetCommittee())":
 		return "committee"
 	case "common.Multiaddress(common.InnerRingNodes(),true)":
 		return "irMajority"
@@ -202,6 +206,17 @@ func canon(s string) string {
 		return "ownAlphabetNode"
 	case "contract.Call(storage.Get(storage.GetContext(),neofsContractKey),multiaddrMethod,contract.ReadOnly)":
 		return "neofsAlphabetAddress"
+	}
+	// a multi-signature account over the committee keys built in place (nns.checkCommittee): the committee atom, provided the
+	// threshold is an arithmetic expression of the number of keys; every such expression is emitted into
+	// `committeeMultisigThresholds` and must be proved to be the majority (Props/C03 threshold theorems)
+	if m := reMultisig.FindStringSubmatch(s); m != nil {
+		if pe, err := parser.ParseExpr(strings.ReplaceAll(m[1], "len(neo.GetCommittee())", "n")); err == nil {
+			if r := texprOpt(pe, nil); r != "none" {
+				siteThresholds[r] = true
+				return "committee"
+			}
+		}
 	}
 	if strings.HasSuffix(s, ").Owner") {
 		return "state.Owner"
@@ -589,6 +604,17 @@ func (t *tr) exprCalls(p *packages.Package, e ast.Expr) *St {
 	return seqs(out...)
 }
 
+func containsFallthrough(n ast.Node) bool {
+	found := false
+	ast.Inspect(n, func(nd ast.Node) bool {
+		if b, ok := nd.(*ast.BranchStmt); ok && b.Tok == token.FALLTHROUGH {
+			found = true
+		}
+		return true
+	})
+	return found
+}
+
 func containsLabelJump(n ast.Node) bool {
 	found := false
 	ast.Inspect(n, func(m ast.Node) bool {
@@ -723,10 +749,36 @@ func (t *tr) stmt(p *packages.Package, s ast.Stmt) *St {
 			}
 			cases = append(cases, t.block(p, cc.Body))
 		}
+		var r *St
+		if x.Tag == nil && !containsFallthrough(x.Body) {
+			// tagless switch = if / else-if chain: keep the guards (a clause with several expressions is their disjunction;
+			// the default clause, wherever it stands, is the final else)
+			r = sk()
+			for _, c := range x.Body.List {
+				if cc := c.(*ast.CaseClause); cc.List == nil {
+					r = t.block(p, cc.Body)
+				}
+			}
+			for i := len(x.Body.List) - 1; i >= 0; i-- {
+				cc := x.Body.List[i].(*ast.CaseClause)
+				if cc.List == nil {
+					continue
+				}
+				var c ast.Expr = cc.List[0]
+				for _, e := range cc.List[1:] {
+					c = &ast.BinaryExpr{X: c, Op: token.LOR, Y: e}
+				}
+				r = t.cond(p, c, t.block(p, cc.Body), r)
+			}
+			if hasKind(r, "brk") {
+				r = &St{K: "loop", A: seq(r, mk("brk"))}
+			}
+			return seqs(pre, r)
+		}
 		if !hasDefault {
 			cases = append(cases, sk())
 		}
-		r := cases[len(cases)-1]
+		r = cases[len(cases)-1]
 		for i := len(cases) - 2; i >= 0; i-- {
 			r = &St{K: "choice", A: cases[i], B: r}
 		}
@@ -1015,7 +1067,7 @@ func accessMain(repo, outLean, outJSON string) {
 		return outs[i].NParams < outs[j].NParams
 	})
 	var b strings.Builder
-	b.WriteString("import NeoFS.Model.Access\n/-! GENERATED by /verif/extract (access) from the contract sources of the repository under test. Do not edit. -/\nnamespace NeoFS.Generated.Access\nopen NeoFS.Access\n\n")
+	b.WriteString("import NeoFS.Model.Access\nimport NeoFS.Model.Threshold\n/-! GENERATED by /verif/extract (access) from the contract sources of the repository under test. Do not edit. -/\nnamespace NeoFS.Generated.Access\nopen NeoFS.Access\n\n")
 	b.WriteString("structure MethodIR where\n  contract : String\n  method : String\n  nparams : Nat\n  params : List String\n  atoms : List String\n  safe : Bool\n  prog : Stmt\n\n")
 	var ids []string
 	for i, m := range outs {
@@ -1025,7 +1077,12 @@ func accessMain(repo, outLean, outJSON string) {
 		fmt.Fprintf(&b, "def %s : MethodIR := ⟨%s, %s, %d, %s, %s, %v, %s_prog⟩\n\n", id, leanStr(m.Contract), leanStr(m.Method), m.NParams, strList(m.Params), strList(m.Atoms), m.Safe, id)
 	}
 	fmt.Fprintf(&b, "def methods : List MethodIR := [%s]\n\n", strings.Join(ids, ", "))
-	// the threshold expressions of common.Multiaddress and nns.checkCommittee, as written in the sources
+	// the threshold expressions of common.Multiaddress and nns.checkCommittee: the first argument of their
+	// CreateMultisigAccount call, as text (for the reader) and as a TExpr value (for the theorems)
+	emitThr := func(name string, e ast.Expr, fd *ast.FuncDecl) {
+		fmt.Fprintf(&b, "def %s : String := %s\n", name, leanStr(strings.ReplaceAll(types.ExprString(e), " ", "")))
+		fmt.Fprintf(&b, "def %sE : Option NeoFS.TExpr := %s\n", name, texprOpt(e, fd))
+	}
 	for _, p := range pkgs {
 		for _, f := range p.Syntax {
 			for _, d := range f.Decls {
@@ -1033,34 +1090,74 @@ func accessMain(repo, outLean, outJSON string) {
 				if !ok || fd.Body == nil {
 					continue
 				}
-				if pshort(p.PkgPath) == "common" && fd.Name.Name == "Multiaddress" {
-					n := 0
-					ast.Inspect(fd.Body, func(nd ast.Node) bool {
-						if as, ok := nd.(*ast.AssignStmt); ok && len(as.Lhs) == 1 && len(as.Rhs) == 1 {
-							if id, ok := as.Lhs[0].(*ast.Ident); ok && id.Name == "threshold" {
-								name := []string{"multiaddressDefaultThreshold", "multiaddressCommitteeThreshold"}
-								if n < 2 {
-									fmt.Fprintf(&b, "def %s : String := %s\n", name[n], leanStr(strings.ReplaceAll(types.ExprString(as.Rhs[0]), " ", "")))
+				isMA := pshort(p.PkgPath) == "common" && fd.Name.Name == "Multiaddress"
+				isNNS := pshort(p.PkgPath) == "nns" && fd.Name.Name == "checkCommittee"
+				if !isMA && !isNNS {
+					continue
+				}
+				var arg ast.Expr
+				ast.Inspect(fd.Body, func(nd ast.Node) bool {
+					if ce, ok := nd.(*ast.CallExpr); ok && len(ce.Args) == 2 {
+						if se, ok := ce.Fun.(*ast.SelectorExpr); ok && se.Sel.Name == "CreateMultisigAccount" && arg == nil {
+							arg = ce.Args[0]
+						}
+					}
+					return true
+				})
+				if arg == nil {
+					continue
+				}
+				if isNNS {
+					emitThr("nnsCommitteeThreshold", arg, fd)
+					continue
+				}
+				// Multiaddress: the threshold variable is defined with the Alphabet expression and reassigned under `if committee`
+				id, ok := arg.(*ast.Ident)
+				if !ok {
+					continue
+				}
+				var plain, underIf []ast.Expr
+				var walk func(n ast.Node, inIf bool)
+				walk = func(n ast.Node, inIf bool) {
+					ast.Inspect(n, func(nd ast.Node) bool {
+						switch x := nd.(type) {
+						case *ast.IfStmt:
+							if x.Init != nil {
+								walk(x.Init, inIf)
+							}
+							walk(x.Body, true)
+							if x.Else != nil {
+								walk(x.Else, true)
+							}
+							return false
+						case *ast.AssignStmt:
+							if len(x.Lhs) == 1 && len(x.Rhs) == 1 {
+								if l, ok := x.Lhs[0].(*ast.Ident); ok && l.Name == id.Name {
+									if inIf {
+										underIf = append(underIf, x.Rhs[0])
+									} else {
+										plain = append(plain, x.Rhs[0])
+									}
 								}
-								n++
 							}
 						}
 						return true
 					})
 				}
-				if pshort(p.PkgPath) == "nns" && fd.Name.Name == "checkCommittee" {
-					ast.Inspect(fd.Body, func(nd ast.Node) bool {
-						if ce, ok := nd.(*ast.CallExpr); ok && len(ce.Args) == 2 {
-							if se, ok := ce.Fun.(*ast.SelectorExpr); ok && se.Sel.Name == "CreateMultisigAccount" {
-								fmt.Fprintf(&b, "def nnsCommitteeThreshold : String := %s\n", leanStr(strings.ReplaceAll(types.ExprString(ce.Args[0]), " ", "")))
-							}
-						}
-						return true
-					})
+				walk(fd.Body, false)
+				if len(plain) == 1 && len(underIf) == 1 {
+					emitThr("multiaddressDefaultThreshold", plain[0], fd)
+					emitThr("multiaddressCommitteeThreshold", underIf[0], fd)
 				}
 			}
 		}
 	}
+	var sts []string
+	for k := range siteThresholds {
+		sts = append(sts, k)
+	}
+	sort.Strings(sts)
+	fmt.Fprintf(&b, "def committeeMultisigThresholds : List (Option NeoFS.TExpr) := [%s]\n", strings.Join(sts, ", "))
 	b.WriteString("\nend NeoFS.Generated.Access\n")
 	writeIfChanged(outLean, b.String())
 	js, _ := json.MarshalIndent(map[string]any{"methods": outs, "unknown_calls": t.unknown}, "", " ")
@@ -1177,4 +1274,89 @@ func readOverloads(repo, c string) map[string]string {
 		res[strings.ToUpper(k[:1])+k[1:]] = v
 	}
 	return res
+}
+
+
+// texprOpt renders an integer expression over ONE quantity (the number of keys: an identifier or a len(...) call, the same
+// text everywhere) as a NeoFS.TExpr value; locals defined once by an arithmetic expression are unfolded; anything else is none.
+func texprOpt(e ast.Expr, fd *ast.FuncDecl) string {
+	defs := map[string]ast.Expr{}
+	count := map[string]int{}
+	var body ast.Node = &ast.BlockStmt{}
+	if fd != nil {
+		body = fd.Body
+	}
+	ast.Inspect(body, func(nd ast.Node) bool {
+		if as, ok := nd.(*ast.AssignStmt); ok && len(as.Lhs) == 1 && len(as.Rhs) == 1 {
+			if l, ok := as.Lhs[0].(*ast.Ident); ok {
+				count[l.Name]++
+				defs[l.Name] = as.Rhs[0]
+			}
+		}
+		return true
+	})
+	atom := ""
+	var rec func(e ast.Expr, depth int) (string, bool)
+	rec = func(e ast.Expr, depth int) (string, bool) {
+		if depth > 8 {
+			return "", false
+		}
+		switch x := e.(type) {
+		case *ast.ParenExpr:
+			return rec(x.X, depth)
+		case *ast.BasicLit:
+			if x.Kind == token.INT {
+				if _, err := strconv.ParseUint(x.Value, 10, 32); err == nil {
+					return "(.lit " + x.Value + ")", true
+				}
+			}
+			return "", false
+		case *ast.BinaryExpr:
+			op := map[token.Token]string{token.ADD: ".add", token.SUB: ".sub", token.MUL: ".mul", token.QUO: ".div"}[x.Op]
+			if op == "" {
+				return "", false
+			}
+			l, ok1 := rec(x.X, depth+1)
+			r, ok2 := rec(x.Y, depth+1)
+			if !ok1 || !ok2 {
+				return "", false
+			}
+			return "(" + op + " " + l + " " + r + ")", true
+		case *ast.Ident:
+			if d, ok := defs[x.Name]; ok && count[x.Name] == 1 {
+				if _, isBin := d.(*ast.BinaryExpr); isBin {
+					return rec(d, depth+1)
+				}
+				if c, isCall := d.(*ast.CallExpr); isCall {
+					if f, ok := c.Fun.(*ast.Ident); ok && f.Name == "len" {
+						return rec(d, depth+1)
+					}
+				}
+			}
+			t := x.Name
+			if atom == "" {
+				atom = t
+			}
+			if atom != t {
+				return "", false
+			}
+			return ".var", true
+		case *ast.CallExpr:
+			if f, ok := x.Fun.(*ast.Ident); ok && f.Name == "len" && len(x.Args) == 1 {
+				t := types.ExprString(x)
+				if atom == "" {
+					atom = t
+				}
+				if atom != t {
+					return "", false
+				}
+				return ".var", true
+			}
+		}
+		return "", false
+	}
+	if r, ok := rec(e, 0); ok {
+		return "some " + r
+	}
+	return "none"
 }
